@@ -951,6 +951,13 @@ func EnvStep(s *Store, sc *CycleScript, cycle int, rec *CycleRecord) {
 	for _, p := range s.Pods() {
 		livePods[p.UID] = true
 	}
+	// consumers: pods that exist and have not finished (the upstream controller drops completed pods too)
+	consumers := map[types.UID]bool{}
+	for _, p := range s.Pods() {
+		if p.Status.Phase != v1.PodSucceeded && p.Status.Phase != v1.PodFailed {
+			consumers[p.UID] = true
+		}
+	}
 	for _, rc := range s.Claims() {
 		owned, ownerLive := false, false
 		for _, or := range rc.OwnerReferences {
@@ -966,7 +973,7 @@ func EnvStep(s *Store, sc *CycleScript, cycle int, rec *CycleRecord) {
 		upd := rc.DeepCopy()
 		var keep []resourceapi.ResourceClaimConsumerReference
 		for _, r := range upd.Status.ReservedFor {
-			if livePods[r.UID] {
+			if consumers[r.UID] {
 				keep = append(keep, r)
 			}
 		}
